@@ -75,15 +75,27 @@ package interp
 //@   requires fr != nil && f != nil && n != nil && n.interp != nil
 
 // runCfg: every application of an exec closure is guarded by the run-id test, in both loops.
+// isExecNode compares the CODE pointers of two closures (reflect.Value.Pointer): closures made by the same
+// generator literal are indistinguishable for it.
+//@ trusted func isExecNode(n, exec) (r)
+//@   pure
+//@   ensures r ==> n != nil && n.exec != nil && exec != nil && codeOf(n.exec) == codeOf(exec)
+//@   ensures n != nil && exec != nil && n.exec == exec ==> r
 //@ func runCfg(n, f, funcNode, callNode)
 //@   props C09 C10 C19
 //@   opt loops = havoc
 //@   opt safety = off
 //@   opt defer = skip
 //@   opt bltn-gate = f.id == n.interp.id
-//@   opt opaque-calls = enterCall, exitCall, exec, originalExecNode, isExecNode
-//@   opt preserve = F_interp_frame_id, F_interp_Interpreter_id, F_interp_node_interp
+//@   opt opaque-calls = enterCall, exitCall, exec, originalExecNode
+//@   opt preserve = F_interp_frame_id, F_interp_Interpreter_id, F_interp_node_interp, F_interp_node_tnext, F_interp_node_fnext, F_interp_node_exec
 //@   requires f != nil
+//@   -- debugger loop: the node handed to the debugger before each step is the node whose closure runs next
+//@   -- (breakpoints are reported for the lines that execute); when the successors of a branch cannot be told
+//@   -- apart the true successor is taken
+//@   loop 2
+//@   step [C19,next] tracked-node-is-the-one-that-runs-next: m != nil && exec != nil && old(m) != nil ==> m.exec == exec
+//@   step [C19,next] true-successor-preferred-when-indistinguishable: exec != nil && old(m) != nil && isExecNode(old(m).tnext, exec) ==> m == old(m).tnext
 //@   -- C10: a frame handed to runCfg while no cancellation is in flight is current
 //@   requires [C10!] frame-current: f.id == n.interp.id
 
